@@ -206,7 +206,11 @@ class Gen:
             if c == 10 and el == 'str':
                 return self.pick(['keys(%s)' % self.expr(('dict', 'num'), d - 1), 'split(%s, %s)' % (self.expr('str', d - 1), self.pick(['","', '" "', '"a"']))])
             if c == 11 and el == 'num':
-                return 'sorted(%s, %s)' % (self.expr(t, d - 1), self.lam(['num'], 'num', d - 1))
+                # keys that tie (a constant, a coarse bucket) with and without the reverse flag: ties keep their order either way
+                key = self.pick([self.lam(['num'], 'num', d - 1), 'v => 0', 'v => v > 1', 'v => round(v)', 'v => len(str(v))'])
+                return 'sorted(%s, %s%s)' % (self.expr(t, d - 1), key, self.pick(['', ', True', ', False', ', True']))
+            if c == 13 and el == 'str':
+                return 'sorted(%s, v => len(v)%s)' % (self.expr(t, d - 1), self.pick(['', ', True', ', True']))
             if c == 12 and el == 'num':
                 return '(%s | map((k, v) => v))' % self.expr(('dict', 'num'), d - 1)
             return self.leaf(t)
@@ -217,6 +221,8 @@ class Gen:
                 return '{' + ', '.join('%s: %s' % (self.keylit(), self.expr(el, d - 1)) for _ in range(n)) + '}'
             if c == 3:
                 return 'sorted(%s)' % self.expr(t, d - 1)
+            if c == 4 and el == 'num':
+                return 'sorted(%s, (k, v) => %s, %s)' % (self.expr(t, d - 1), self.pick(['0', 'v > 1', 'len(k)']), self.pick(['True', 'False', 'True']))
             return self.leaf(t)
 
     # ---- statements ----------------------------------------------------------------------
